@@ -289,7 +289,8 @@ def missing_inputs(repo, fi, m: Memo) -> List[str]:
     fnode = fi.node
     key = resolve_locals(fnode, m.key_leaves)
     vals = resolve_locals(fnode, m.value_leaves)
-    store = sorted(resolve_locals(fnode, {m.store}))[0] if m.store else m.store
+    rs_ = sorted(resolve_locals(fnode, {m.store})) if m.store else []
+    store = rs_[0] if rs_ else m.store
     owner = store.rsplit('.', 1)[0] if '.' in store else None
     out = []
     for v in sorted(vals):
